@@ -138,4 +138,598 @@ theorem get_set_indep {x w : Var} {fr : Frame} (hx : Var.inB fr.length x) (hw : 
         rw [getBit_setBit _ _ _ _ hx.2]
         simp [hk]
 
+/-! ### sequences of writes -/
+
+def IndepR (x w : Var) : Prop := indep x w = true
+
+theorem applyWrites_cons (w : Var × Nat) (t : List (Var × Nat)) (fr : Frame) :
+    applyWrites (w :: t) fr = applyWrites t (w.1.set w.2 fr) := rfl
+
+theorem aw_length {L : Nat} (ws : List (Var × Nat)) (fr : Frame) (hL : fr.length = L)
+    (hin : ∀ ov ∈ ws, Var.inB L ov.1) : (applyWrites ws fr).length = L := by
+  induction ws generalizing fr with
+  | nil => exact hL
+  | cons w t ih =>
+    rw [applyWrites_cons]
+    apply ih
+    · rw [length_set (hL ▸ hin w (by simp))]; exact hL
+    · intro ov hov; exact hin ov (by simp [hov])
+
+/-- writes to variables independent of `x` do not change what `x` reads -/
+theorem aw_get_indep {L : Nat} (x : Var) (ws : List (Var × Nat)) (fr : Frame) (hL : fr.length = L)
+    (hx : Var.inB L x) (hin : ∀ ov ∈ ws, Var.inB L ov.1) (hi : ∀ ov ∈ ws, indep x ov.1 = true) :
+    x.get (applyWrites ws fr) = x.get fr := by
+  induction ws generalizing fr with
+  | nil => rfl
+  | cons w t ih =>
+    rw [applyWrites_cons]
+    have hw : Var.inB fr.length w.1 := hL ▸ hin w (by simp)
+    rw [ih (w.1.set w.2 fr) (by rw [length_set hw]; exact hL)
+      (fun ov hov => hin ov (by simp [hov])) (fun ov hov => hi ov (by simp [hov]))]
+    exact get_set_indep (hL ▸ hx) hw (hi w (by simp)) w.2
+
+/-- after a sequence of writes to pairwise independent variables each of them reads what was written -/
+theorem aw_get_written {L : Nat} (ws : List (Var × Nat)) (fr : Frame) (hL : fr.length = L)
+    (hin : ∀ ov ∈ ws, Var.inB L ov.1) (hp : (ws.map Prod.fst).Pairwise IndepR)
+    (ov : Var × Nat) (hov : ov ∈ ws) : ov.1.get (applyWrites ws fr) = ov.1.norm ov.2 := by
+  induction ws generalizing fr with
+  | nil => simp at hov
+  | cons w t ih =>
+    rw [applyWrites_cons]
+    have hw : Var.inB fr.length w.1 := hL ▸ hin w (by simp)
+    have hL' : (w.1.set w.2 fr).length = L := by rw [length_set hw]; exact hL
+    simp only [List.map_cons, List.pairwise_cons] at hp
+    rcases List.mem_cons.1 hov with rfl | hov
+    · rw [aw_get_indep ov.1 t _ hL' (hL ▸ hw) (fun o ho => hin o (by simp [ho]))
+        (fun o ho => hp.1 o.1 (List.mem_map_of_mem ho))]
+      exact get_set_same hw ov.2
+    · exact ih _ hL' (fun o ho => hin o (by simp [ho])) hp.2 hov
+
+theorem zip_fst_sublist (os : List Var) (vs : List Nat) : ((os.zip vs).map Prod.fst).Sublist os := by
+  induction os generalizing vs with
+  | nil => simp
+  | cons o os ih =>
+    cases vs with
+    | nil => simp
+    | cons v vs => simpa using ih vs
+
+theorem mem_zip_fst {os : List Var} {vs : List Nat} {ov : Var × Nat} (h : ov ∈ os.zip vs) : ov.1 ∈ os :=
+  (List.of_mem_zip (a := ov.1) (b := ov.2) h).1
+
+/-! ### the working counters -/
+
+def cvar (pc : Nat × Nat) : Var := .bytes pc.1 2
+def counterVars (cfg : Cfg) : List Var := cfg.counters.map cvar
+def allIns (cfg : Cfg) : List Var := cfg.devs.flatMap (·.ins)
+def allOuts (cfg : Cfg) : List Var := cfg.devs.flatMap (·.outs)
+
+/-- the returned 16-bit counter differs from the expected count -/
+def mismatch (data : Frame) (pc : Nat × Nat) : Bool := wkcAt data pc.1 != pc.2
+/-- number of datagrams of a response whose counter is wrong -/
+def mismatches (counters : List (Nat × Nat)) (data : Frame) : Nat := (counters.filter (mismatch data)).length
+
+def clears (counters : List (Nat × Nat)) : List (Var × Nat) := counters.map fun pc => (cvar pc, 0)
+
+theorem wkcAt_eq_get (f : Frame) (pc : Nat × Nat) : wkcAt f pc.1 = (cvar pc).get f := rfl
+
+theorem checkCounters_eq (cs : List (Nat × Nat)) (data : Frame) (errs : Nat) (cur : Frame) :
+    checkCounters cs data errs cur = (errs + mismatches cs data, applyWrites (clears cs) cur) := by
+  induction cs generalizing errs cur with
+  | nil => simp [checkCounters, mismatches, clears, applyWrites]
+  | cons pc cs ih =>
+    have hset : setRange cur pc.1 [0, 0] = (cvar pc).set 0 cur := rfl
+    have := ih (if wkcAt data pc.1 != pc.2 then errs + 1 else errs) (setRange cur pc.1 [0, 0])
+    unfold checkCounters at this ⊢
+    rw [List.foldl_cons]
+    simp only [counterStep]
+    rw [this, hset]
+    simp only [mismatches, List.filter_cons, mismatch, clears, List.map_cons, applyWrites_cons]
+    congr 1
+    by_cases h : (wkcAt data pc.1 != pc.2) = true
+    · simp only [h, ↓reduceIte, List.length_cons]; omega
+    · simp only [h, ↓reduceIte, Bool.false_eq_true]
+
+theorem decLE_eq_zero (bs : List UInt8) (h : decLE bs = 0) : bs = zeros bs.length := by
+  induction bs with
+  | nil => rfl
+  | cons b bs ih =>
+    simp only [decLE] at h
+    have hb : b.toNat = 0 := by omega
+    have hr : decLE bs = 0 := by omega
+    have : b = 0 := UInt8.toNat_inj.1 (by simpa using hb)
+    simp only [zeros, List.length_cons, List.replicate_succ, this]
+    congr 1
+    exact ih hr
+
+/-- the counter comparison looks at both bytes: the 16-bit value equals `c` iff the two bytes are `c`'s bytes -/
+theorem wkc_full_width (data : Frame) (p c : Nat) (hp : p + 2 ≤ data.length) (hc : c < 65536) :
+    wkcAt data p = c ↔ slice data p (p + 2) = encLE 2 c := by
+  have hlen : (slice data p (p + 2)).length = 2 := by rw [length_slice _ _ _ hp]; omega
+  constructor
+  · intro h
+    have := encLE_decLE (slice data p (p + 2))
+    rw [hlen] at this
+    rw [← this]; exact congrArg _ h
+  · intro h
+    unfold wkcAt
+    rw [h]
+    exact decLE_encLE 2 c (by simpa using hc)
+
+/-- a zero 16-bit counter means both bytes are zero -/
+theorem cleared_bytes (f : Frame) (p : Nat) (hp : p + 2 ≤ f.length) (h : wkcAt f p = 0) :
+    slice f p (p + 2) = [0, 0] :=
+  (wkc_full_width f p 0 hp (by decide)).1 h
+
+/-! ### the layout hypotheses -/
+
+def Layout (cfg : Cfg) (L : Nat) : Prop :=
+  (∀ x ∈ counterVars cfg, Var.inB L x) ∧ (∀ x ∈ allIns cfg, Var.inB L x) ∧ (∀ x ∈ allOuts cfg, Var.inB L x) ∧
+  (counterVars cfg).Pairwise IndepR ∧
+  (∀ x ∈ allIns cfg, ∀ w ∈ counterVars cfg, indep x w = true) ∧
+  (∀ x ∈ allIns cfg, ∀ w ∈ allOuts cfg, indep x w = true) ∧
+  (∀ x ∈ allOuts cfg, ∀ w ∈ counterVars cfg, indep x w = true) ∧
+  (allOuts cfg).Pairwise IndepR
+
+instance (x w : Var) : Decidable (IndepR x w) := by unfold IndepR; infer_instance
+instance (cfg : Cfg) (L : Nat) : Decidable (Layout cfg L) := by unfold Layout; infer_instance
+
+/-! ### the device loop -/
+
+section devs
+variable {L : Nat} (c : Nat)
+
+theorem devUpdate_fst (d : Dev) (cur : Frame) :
+    (devUpdate c d cur).1 = applyWrites (d.outs.zip (d.f (d.ins.map (·.get cur)) c)) cur := rfl
+theorem devUpdate_snd (d : Dev) (cur : Frame) : (devUpdate c d cur).2 = d.ins.map (·.get cur) := rfl
+
+theorem devsUpdate_cons (d : Dev) (ds : List Dev) (cur : Frame) :
+    devsUpdate c (d :: ds) cur =
+      ((devsUpdate c ds (devUpdate c d cur).1).1, (devUpdate c d cur).2 :: (devsUpdate c ds (devUpdate c d cur).1).2) := rfl
+
+theorem dev_length (d : Dev) (cur : Frame) (hL : cur.length = L) (ho : ∀ x ∈ d.outs, Var.inB L x) :
+    (devUpdate c d cur).1.length = L := by
+  rw [devUpdate_fst]
+  exact aw_length _ _ hL (fun ov hov => ho _ (mem_zip_fst hov))
+
+theorem dev_get_indep (d : Dev) (cur : Frame) (hL : cur.length = L) (ho : ∀ x ∈ d.outs, Var.inB L x)
+    (x : Var) (hx : Var.inB L x) (hi : ∀ w ∈ d.outs, indep x w = true) :
+    x.get (devUpdate c d cur).1 = x.get cur := by
+  rw [devUpdate_fst]
+  exact aw_get_indep x _ _ hL hx (fun ov hov => ho _ (mem_zip_fst hov)) (fun ov hov => hi _ (mem_zip_fst hov))
+
+/-- the frame keeps its length, and a variable independent of every output reads the same afterwards -/
+theorem devs_frame (devs : List Dev) (cur : Frame) (hL : cur.length = L)
+    (ho : ∀ d ∈ devs, ∀ x ∈ d.outs, Var.inB L x) :
+    (devsUpdate c devs cur).1.length = L ∧
+    ∀ x, Var.inB L x → (∀ d ∈ devs, ∀ w ∈ d.outs, indep x w = true) → x.get (devsUpdate c devs cur).1 = x.get cur := by
+  induction devs generalizing cur with
+  | nil => exact ⟨hL, fun _ _ _ => rfl⟩
+  | cons d ds ih =>
+    simp only [devsUpdate_cons]
+    have hd := dev_length c d cur hL (ho d (by simp))
+    obtain ⟨h1, h2⟩ := ih (devUpdate c d cur).1 hd (fun d' hd' => ho d' (by simp [hd']))
+    refine ⟨h1, fun x hx hi => ?_⟩
+    rw [h2 x hx (fun d' hd' => hi d' (by simp [hd']))]
+    exact dev_get_indep c d cur hL (ho d (by simp)) x hx (hi d (by simp))
+
+/-- every device reads its inputs from the frame the loop started with -/
+theorem devs_seen (devs : List Dev) (cur : Frame) (hL : cur.length = L)
+    (hi : ∀ d ∈ devs, ∀ x ∈ d.ins, Var.inB L x) (ho : ∀ d ∈ devs, ∀ x ∈ d.outs, Var.inB L x)
+    (hio : ∀ d ∈ devs, ∀ x ∈ d.ins, ∀ d' ∈ devs, ∀ w ∈ d'.outs, indep x w = true) :
+    (devsUpdate c devs cur).2 = devs.map (fun d => d.ins.map (·.get cur)) := by
+  induction devs generalizing cur with
+  | nil => rfl
+  | cons d ds ih =>
+    simp only [devsUpdate_cons, List.map_cons, devUpdate_snd]
+    congr 1
+    have hd := dev_length c d cur hL (ho d (by simp))
+    rw [ih (devUpdate c d cur).1 hd (fun d' hd' => hi d' (by simp [hd'])) (fun d' hd' => ho d' (by simp [hd']))
+      (fun a ha x hx b hb => hio a (by simp [ha]) x hx b (by simp [hb]))]
+    apply List.map_congr_left
+    intro d' hd'
+    apply List.map_congr_left
+    intro x hx
+    exact dev_get_indep c d cur hL (ho d (by simp)) x (hi d' (by simp [hd']) x hx)
+      (hio d' (by simp [hd']) x hx d (by simp))
+
+/-- what a device wrote is still there after the remaining devices ran -/
+theorem devs_outs (devs : List Dev) (cur : Frame) (hL : cur.length = L)
+    (hi : ∀ d ∈ devs, ∀ x ∈ d.ins, Var.inB L x) (ho : ∀ d ∈ devs, ∀ x ∈ d.outs, Var.inB L x)
+    (hio : ∀ d ∈ devs, ∀ x ∈ d.ins, ∀ d' ∈ devs, ∀ w ∈ d'.outs, indep x w = true)
+    (hoo : (devs.flatMap (·.outs)).Pairwise IndepR) :
+    ∀ d ∈ devs, ∀ ov ∈ d.outs.zip (d.f (d.ins.map (·.get cur)) c),
+      ov.1.get (devsUpdate c devs cur).1 = ov.1.norm ov.2 := by
+  induction devs generalizing cur with
+  | nil => intro d hd; simp at hd
+  | cons d0 ds ih =>
+    intro d hd ov hov
+    simp only [devsUpdate_cons]
+    simp only [List.flatMap_cons, List.pairwise_append] at hoo
+    obtain ⟨hp0, hps, hcross⟩ := hoo
+    have hd0 := dev_length c d0 cur hL (ho d0 (by simp))
+    have hrest := devs_frame c ds (devUpdate c d0 cur).1 hd0 (fun d' hd' => ho d' (by simp [hd']))
+    rcases List.mem_cons.1 hd with rfl | hd
+    · -- the head device: written now, untouched by the others
+      have hov1 : ov.1 ∈ d.outs := mem_zip_fst hov
+      rw [hrest.2 ov.1 (ho d (by simp) _ hov1)
+        (fun d' hd' w hw => hcross _ hov1 _ (List.mem_flatMap.2 ⟨d', hd', hw⟩))]
+      rw [devUpdate_fst]
+      exact aw_get_written _ _ hL (fun o ho' => ho d (by simp) _ (mem_zip_fst ho'))
+        (List.Pairwise.sublist (zip_fst_sublist _ _) hp0) ov hov
+    · -- a later device: it reads the same inputs as at the start of the loop
+      have hsame : d.ins.map (·.get (devUpdate c d0 cur).1) = d.ins.map (·.get cur) := by
+        apply List.map_congr_left
+        intro x hx
+        exact dev_get_indep c d0 cur hL (ho d0 (by simp)) x (hi d (by simp [hd]) x hx)
+          (hio d (by simp [hd]) x hx d0 (by simp))
+      have := ih (devUpdate c d0 cur).1 hd0 (fun d' hd' => hi d' (by simp [hd'])) (fun d' hd' => ho d' (by simp [hd']))
+        (fun a ha x hx b hb => hio a (by simp [ha]) x hx b (by simp [hb])) hps d hd
+      rw [hsame] at this
+      exact this ov hov
+
+end devs
+
+/-! ### one cycle: `update_devices` and the re-send -/
+
+theorem mem_allIns {cfg : Cfg} {d : Dev} {x : Var} (hd : d ∈ cfg.devs) (hx : x ∈ d.ins) : x ∈ allIns cfg :=
+  List.mem_flatMap.2 ⟨d, hd, hx⟩
+theorem mem_allOuts {cfg : Cfg} {d : Dev} {x : Var} (hd : d ∈ cfg.devs) (hx : x ∈ d.outs) : x ∈ allOuts cfg :=
+  List.mem_flatMap.2 ⟨d, hd, hx⟩
+
+
+section cycle
+variable {cfg : Cfg} {L : Nat} (hlay : Layout cfg L) (st : St) (data : Frame) (hd : data.length = L)
+include hlay hd
+
+omit hlay hd in
+theorem updateDevices_cur : (updateDevices cfg st data).cur =
+    (devsUpdate st.cycle cfg.devs (applyWrites (clears cfg.counters) data)).1 := by
+  simp [updateDevices, checkCounters_eq]
+
+omit hlay hd in
+theorem updateDevices_seen : (updateDevices cfg st data).seen =
+    st.seen ++ [(devsUpdate st.cycle cfg.devs (applyWrites (clears cfg.counters) data)).2] := by
+  simp [updateDevices, checkCounters_eq]
+
+theorem cleared_length : (applyWrites (clears cfg.counters) data).length = L := by
+  apply aw_length _ _ hd
+  intro ov hov
+  simp only [clears, List.mem_map] at hov
+  obtain ⟨pc, hpc, rfl⟩ := hov
+  exact hlay.1 _ (List.mem_map_of_mem hpc)
+
+/-- an input variable reads from the cleared frame what it reads from the response -/
+theorem cleared_get_in (x : Var) (hx : x ∈ allIns cfg) :
+    x.get (applyWrites (clears cfg.counters) data) = x.get data := by
+  apply aw_get_indep x _ _ hd (hlay.2.1 x hx)
+  · intro ov hov
+    simp only [clears, List.mem_map] at hov
+    obtain ⟨pc, hpc, rfl⟩ := hov
+    exact hlay.1 _ (List.mem_map_of_mem hpc)
+  · intro ov hov
+    simp only [clears, List.mem_map] at hov
+    obtain ⟨pc, hpc, rfl⟩ := hov
+    exact hlay.2.2.2.2.1 x hx _ (List.mem_map_of_mem hpc)
+
+theorem seen_eq : (devsUpdate st.cycle cfg.devs (applyWrites (clears cfg.counters) data)).2 =
+    cfg.devs.map (fun d => d.ins.map (·.get data)) := by
+  rw [devs_seen st.cycle cfg.devs _ (cleared_length hlay data hd)
+    (fun d hd' x hx => hlay.2.1 x (mem_allIns hd' hx))
+    (fun d hd' x hx => hlay.2.2.1 x (mem_allOuts hd' hx))
+    (fun d hd' x hx d' hd'' w hw => hlay.2.2.2.2.2.1 x (mem_allIns hd' hx) w (mem_allOuts hd'' hw))]
+  apply List.map_congr_left
+  intro d hd'
+  apply List.map_congr_left
+  intro x hx
+  exact cleared_get_in hlay data hd x (mem_allIns hd' hx)
+
+/-- **inputs_visible** — in the cycle of a response every device's `update()` reads, at each of its
+input variables, exactly the bytes of that response -/
+theorem inputs_visible :
+    (step cfg st (.resp data)).seen = st.seen ++ [cfg.devs.map (fun d => d.ins.map (·.get data))] := by
+  show (updateDevices cfg st data).seen = _
+  rw [updateDevices_seen, seen_eq hlay st data hd]
+
+/-- **outputs_next_frame** — the frame sent next is `current_data` after the device loop, and every
+output variable a device set reads there what the device wrote (the value computed from the inputs
+of this response) -/
+theorem outputs_next_frame :
+    (step cfg st (.resp data)).sent = st.sent ++ [(step cfg st (.resp data)).cur] ∧
+    (step cfg st (.resp data)).last = (step cfg st (.resp data)).cur ∧
+    ∀ d ∈ cfg.devs, ∀ ov ∈ d.outs.zip (d.f (d.ins.map (·.get data)) st.cycle),
+      ov.1.get (step cfg st (.resp data)).cur = ov.1.norm ov.2 := by
+  refine ⟨rfl, rfl, ?_⟩
+  intro d hd' ov hov
+  show ov.1.get (updateDevices cfg st data).cur = _
+  rw [updateDevices_cur]
+  have hsame : d.ins.map (·.get (applyWrites (clears cfg.counters) data)) = d.ins.map (·.get data) := by
+    apply List.map_congr_left
+    intro x hx
+    exact cleared_get_in hlay data hd x (mem_allIns hd' hx)
+  have := devs_outs st.cycle cfg.devs _ (cleared_length hlay data hd)
+    (fun d hd' x hx => hlay.2.1 x (mem_allIns hd' hx))
+    (fun d hd' x hx => hlay.2.2.1 x (mem_allOuts hd' hx))
+    (fun d hd' x hx d' hd'' w hw => hlay.2.2.2.2.2.1 x (mem_allIns hd' hx) w (mem_allOuts hd'' hw))
+    hlay.2.2.2.2.2.2.2 d hd'
+  rw [hsame] at this
+  exact this ov hov
+
+theorem step_length : (step cfg st (.resp data)).cur.length = L := by
+  show (updateDevices cfg st data).cur.length = L
+  rw [updateDevices_cur]
+  exact (devs_frame st.cycle cfg.devs _ (cleared_length hlay data hd)
+    (fun d hd' x hx => hlay.2.2.1 x (mem_allOuts hd' hx))).1
+
+/-- **wkc_cleared** (one cycle) — in the frame sent after a response every working counter is zero -/
+theorem wkc_cleared_step : ∀ pc ∈ cfg.counters, wkcAt (step cfg st (.resp data)).cur pc.1 = 0 := by
+  intro pc hpc
+  show wkcAt (updateDevices cfg st data).cur pc.1 = 0
+  rw [updateDevices_cur, wkcAt_eq_get]
+  have hcv : cvar pc ∈ counterVars cfg := List.mem_map_of_mem hpc
+  rw [(devs_frame st.cycle cfg.devs _ (cleared_length hlay data hd)
+    (fun d hd' x hx => hlay.2.2.1 x (mem_allOuts hd' hx))).2 (cvar pc) (hlay.1 _ hcv)
+    (fun d hd' w hw => by rw [indep_symm]; exact hlay.2.2.2.2.2.2.1 w (mem_allOuts hd' hw) _ hcv)]
+  have := aw_get_written (clears cfg.counters) data hd
+    (by
+      intro ov hov
+      simp only [clears, List.mem_map] at hov
+      obtain ⟨pc', hpc', rfl⟩ := hov
+      exact hlay.1 _ (List.mem_map_of_mem hpc'))
+    (by simpa [clears, List.map_map, Function.comp_def, counterVars] using hlay.2.2.2.1)
+    (cvar pc, 0) (by simp only [clears, List.mem_map]; exact ⟨pc, hpc, rfl⟩)
+  rw [this]
+  simp [Var.norm, cvar]
+
+omit hlay hd in
+/-- **error_iff_mismatch** (one cycle) — `wkc_errors` grows by exactly the number of datagrams of this
+response whose returned 16-bit counter differs from the expected count; nothing else changes it -/
+theorem error_iff_mismatch_step :
+    (step cfg st (.resp data)).errors = st.errors + mismatches cfg.counters data ∧
+    (step cfg st .timeout).errors = st.errors := by
+  refine ⟨?_, rfl⟩
+  show (updateDevices cfg st data).errors = _
+  simp [updateDevices, checkCounters_eq]
+
+end cycle
+
+/-! ### the loop of `run`: induction over the list of bus events -/
+
+/-- the responses among the events, in order -/
+def resps : List Ev → List Frame
+  | [] => []
+  | .resp d :: t => d :: resps t
+  | .timeout :: t => resps t
+
+def timeouts : List Ev → Nat
+  | [] => 0
+  | .resp _ :: t => timeouts t
+  | .timeout :: t => timeouts t + 1
+
+/-- every response has the length of the frame -/
+def RespLen (L : Nat) (evs : List Ev) : Prop := ∀ d, Ev.resp d ∈ evs → d.length = L
+
+/-- all working counters of the frame are zero -/
+def ClearedF (cfg : Cfg) (f : Frame) : Prop := ∀ pc ∈ cfg.counters, wkcAt f pc.1 = 0
+
+section loop
+variable {cfg : Cfg} {L : Nat}
+
+theorem runFrom_cons (st : St) (e : Ev) (evs : List Ev) :
+    runFrom cfg st (e :: evs) = runFrom cfg (step cfg st e) evs := rfl
+
+theorem runFrom_append (st : St) (a b : List Ev) :
+    runFrom cfg st (a ++ b) = runFrom cfg (runFrom cfg st a) b := by
+  simp [runFrom, List.foldl_append]
+
+theorem respLen_tail {e : Ev} {evs : List Ev} (h : RespLen L (e :: evs)) : RespLen L evs :=
+  fun d hd => h d (List.mem_cons_of_mem _ hd)
+
+theorem seen_from (hlay : Layout cfg L) (evs : List Ev) (st : St) (hlen : RespLen L evs) :
+    (runFrom cfg st evs).seen =
+      st.seen ++ (resps evs).map (fun data => cfg.devs.map (fun d => d.ins.map (·.get data))) := by
+  induction evs generalizing st with
+  | nil => simp [runFrom, resps]
+  | cons e evs ih =>
+    rw [runFrom_cons, ih _ (respLen_tail hlen)]
+    cases e with
+    | resp d =>
+      rw [inputs_visible hlay st d (hlen d (by simp))]
+      simp [resps]
+    | timeout => simp [resps, step]
+
+theorem errors_from (evs : List Ev) (st : St) :
+    (runFrom cfg st evs).errors = st.errors + ((resps evs).map (mismatches cfg.counters)).sum ∧
+    (runFrom cfg st evs).missed = st.missed + timeouts evs := by
+  induction evs generalizing st with
+  | nil => simp [runFrom, resps, timeouts]
+  | cons e evs ih =>
+    rw [runFrom_cons, (ih _).1, (ih _).2]
+    cases e with
+    | resp d =>
+      rw [(error_iff_mismatch_step st d).1]
+      simp only [resps, timeouts, List.map_cons, List.sum_cons]
+      refine ⟨by omega, rfl⟩
+    | timeout =>
+      exact ⟨by simp [resps, step], by simp [timeouts, step]; omega⟩
+
+theorem sent_length_from (evs : List Ev) (st : St) :
+    (runFrom cfg st evs).sent.length = st.sent.length + evs.length := by
+  induction evs generalizing st with
+  | nil => rfl
+  | cons e evs ih =>
+    rw [runFrom_cons, ih]
+    cases e <;> simp [step, updateDevices] <;> omega
+
+/-- once the data to be sent has cleared counters, every further frame has -/
+theorem sent_from (hlay : Layout cfg L) (evs : List Ev) (st : St) (hlen : RespLen L evs)
+    (hc : ClearedF cfg st.last) :
+    ∃ tail, (runFrom cfg st evs).sent = st.sent ++ tail ∧ tail.length = evs.length ∧
+      (∀ f ∈ tail, ClearedF cfg f) ∧ ClearedF cfg (runFrom cfg st evs).last := by
+  induction evs generalizing st with
+  | nil => exact ⟨[], by simp [runFrom], rfl, by simp, hc⟩
+  | cons e evs ih =>
+    rw [runFrom_cons]
+    cases e with
+    | resp d =>
+      have hd := hlen d (by simp)
+      have hcl : ClearedF cfg (step cfg st (.resp d)).cur := wkc_cleared_step hlay st d hd
+      obtain ⟨h1, h2, _⟩ := outputs_next_frame hlay st d hd
+      obtain ⟨tail, t1, t2, t3, t4⟩ := ih (step cfg st (.resp d)) (respLen_tail hlen) (h2 ▸ hcl)
+      refine ⟨(step cfg st (.resp d)).cur :: tail, ?_, by simp [t2], ?_, t4⟩
+      · rw [t1, h1]; simp
+      · intro f hf
+        rcases List.mem_cons.1 hf with rfl | hf
+        · exact hcl
+        · exact t3 f hf
+    | timeout =>
+      obtain ⟨tail, t1, t2, t3, t4⟩ := ih (step cfg st .timeout) (respLen_tail hlen) hc
+      refine ⟨st.last :: tail, ?_, by simp [t2], ?_, t4⟩
+      · rw [t1]; simp [step]
+      · intro f hf
+        rcases List.mem_cons.1 hf with rfl | hf
+        · exact hc
+        · exact t3 f hf
+
+theorem sent_timeouts (evs : List Ev) (st : St) (h : ∀ e ∈ evs, e = Ev.timeout) :
+    (runFrom cfg st evs).sent = st.sent ++ List.replicate evs.length st.last ∧
+    (runFrom cfg st evs).last = st.last := by
+  induction evs generalizing st with
+  | nil => simp [runFrom]
+  | cons e evs ih =>
+    have he := h e (by simp)
+    subst he
+    rw [runFrom_cons]
+    obtain ⟨a, b⟩ := ih (step cfg st .timeout) (fun e he => h e (by simp [he]))
+    rw [a, b]
+    simp [step, List.replicate_succ]
+
+theorem last_from (evs : List Ev) (st : St) (h : st.sent.getLast? = some st.last) :
+    (runFrom cfg st evs).sent.getLast? = some (runFrom cfg st evs).last := by
+  induction evs generalizing st with
+  | nil => exact h
+  | cons e evs ih =>
+    rw [runFrom_cons]
+    apply ih
+    cases e <;> simp [step]
+
+/-! ### the property -/
+
+/-- **inputs_visible** — over a whole run: the k-th `update_devices` call is the one of the k-th
+response, and in it every device reads at its input variables exactly the bytes of that response
+(the latest one), whatever happened before and however many timeouts lie in between -/
+theorem inputs_visible_run (hlay : Layout cfg L) (asm : Frame) (evs : List Ev) (hlen : RespLen L evs) :
+    (run cfg asm evs).seen = (resps evs).map (fun data => cfg.devs.map (fun d => d.ins.map (·.get data))) := by
+  have := seen_from hlay evs (init asm) hlen
+  simpa [run, init] using this
+
+/-- **error_iff_mismatch** — `wkc_errors` is `initialErrors` (= 1, set after the OPERATIONAL request)
+plus, for every response, the number of datagrams whose returned 16-bit counter differs from the
+expected count — the first response included; `missed_counter` counts the timeouts -/
+theorem error_iff_mismatch (asm : Frame) (evs : List Ev) :
+    (run cfg asm evs).errors = initialErrors + ((resps evs).map (mismatches cfg.counters)).sum ∧
+    (run cfg asm evs).missed = timeouts evs := by
+  have := errors_from (cfg := cfg) evs (init asm)
+  simpa [run, init] using this
+
+/-- **wkc_cleared** — every frame sent after a response has been processed (the frame answering that
+response and everything after it, re-sends after timeouts included) has all working counters zero -/
+theorem wkc_cleared (hlay : Layout cfg L) (asm : Frame) (pre : List Ev) (d : Frame) (post : List Ev)
+    (hlen : RespLen L (pre ++ Ev.resp d :: post)) :
+    ∃ tail, (run cfg asm (pre ++ Ev.resp d :: post)).sent = (run cfg asm pre).sent ++ tail ∧
+      (run cfg asm pre).sent.length = 1 + pre.length ∧ tail.length = 1 + post.length ∧
+      ∀ f ∈ tail, ClearedF cfg f := by
+  have hd : d.length = L := hlen d (by simp)
+  have hpost : RespLen L post := fun x hx => hlen x (by simp [hx])
+  have hpre : (run cfg asm pre).sent.length = 1 + pre.length := by
+    have := sent_length_from (cfg := cfg) pre (init asm)
+    simpa [run, init, Nat.add_comm] using this
+  unfold run at hpre ⊢
+  rw [runFrom_append, runFrom_cons]
+  generalize runFrom cfg (init asm) pre = st0 at hpre ⊢
+  have hcl : ClearedF cfg (step cfg st0 (.resp d)).cur := wkc_cleared_step hlay st0 d hd
+  obtain ⟨h1, h2, _⟩ := outputs_next_frame hlay st0 d hd
+  obtain ⟨tail, t1, t2, t3, _⟩ := sent_from hlay post (step cfg st0 (.resp d)) hpost (h2 ▸ hcl)
+  refine ⟨(step cfg st0 (.resp d)).cur :: tail, ?_, ?_, by simp [t2]; omega, ?_⟩
+  · rw [t1, h1]; simp
+  · exact hpre
+  · intro f hf
+    rcases List.mem_cons.1 hf with rfl | hf
+    · exact hcl
+    · exact t3 f hf
+
+theorem cycle_from (evs : List Ev) (st : St) :
+    (runFrom cfg st evs).cycle = st.cycle + (resps evs).length := by
+  induction evs generalizing st with
+  | nil => rfl
+  | cons e evs ih =>
+    rw [runFrom_cons, ih]
+    cases e <;> simp [step, updateDevices, resps] <;> omega
+
+/-- **outputs_next_frame** — over a whole run: the frame sent in answer to a response is
+`current_data` after the device loop; every output variable reads there what its device wrote in
+this cycle, computed from the inputs of this response (the device function gets the number of
+earlier responses as cycle number) -/
+theorem outputs_next_frame_run (hlay : Layout cfg L) (asm : Frame) (pre : List Ev) (d : Frame)
+    (hlen : RespLen L (pre ++ [Ev.resp d])) :
+    (run cfg asm (pre ++ [Ev.resp d])).sent = (run cfg asm pre).sent ++ [(run cfg asm (pre ++ [Ev.resp d])).cur] ∧
+    ∀ dev ∈ cfg.devs, ∀ ov ∈ dev.outs.zip (dev.f (dev.ins.map (·.get d)) (resps pre).length),
+      ov.1.get (run cfg asm (pre ++ [Ev.resp d])).cur = ov.1.norm ov.2 := by
+  have hd : d.length = L := hlen d (by simp)
+  have hc : (run cfg asm pre).cycle = (resps pre).length := by
+    have := cycle_from (cfg := cfg) pre (init asm)
+    simpa [run, init] using this
+  unfold run at hc ⊢
+  rw [runFrom_append]
+  generalize runFrom cfg (init asm) pre = st0 at hc ⊢
+  obtain ⟨h1, _, h3⟩ := outputs_next_frame hlay st0 d hd
+  rw [hc] at h3
+  exact ⟨h1, h3⟩
+
+/-- a timeout sends the previous frame again, unchanged: outputs stay, counters stay cleared -/
+theorem timeout_resends (asm : Frame) (evs : List Ev) :
+    ∃ f, (run cfg asm evs).sent.getLast? = some f ∧
+      (run cfg asm (evs ++ [Ev.timeout])).sent = (run cfg asm evs).sent ++ [f] := by
+  refine ⟨(run cfg asm evs).last, last_from evs (init asm) rfl, ?_⟩
+  unfold run
+  rw [runFrom_append]
+  rfl
+
+/-- before the first response has been processed the assembled packet itself is (re)sent: its
+counter fields hold the expected counts `Packet.assemble` put there -/
+theorem first_frames (asm : Frame) (evs : List Ev) (h : ∀ e ∈ evs, e = Ev.timeout) :
+    (run cfg asm evs).sent = List.replicate (evs.length + 1) asm := by
+  have := (sent_timeouts (cfg := cfg) evs (init asm) h).1
+  rw [run, this]
+  simp [init, List.replicate_succ]
+
+end loop
+
+/-! ### non-vacuity: a concrete layout, devices with byte and bit variables, a run with timeouts,
+wrong counters ≥ 256 and a high-byte-only difference -/
+
+def exDevA : Dev :=
+  { ins := [.bytes 4 2, .bit 6 3], outs := [.bytes 14 2, .bit 16 0, .bit 16 5],
+    f := fun seen c => [seen.sum + c, 1, seen.sum % 2] }
+def exDevB : Dev := { ins := [.bytes 7 1], outs := [.bytes 17 1], f := fun seen c => [seen.sum * 3 + c] }
+def exCfg : Cfg := { counters := [(10, 1), (20, 2)], devs := [exDevA, exDevB] }
+def exAsm : Frame := [0,0,0,0, 0,0,0,0, 0,0, 1,0, 0,0, 0,0,0,0, 0,0, 2,0, 0,0]
+/-- inputs 0x1234 / bit 3 / 9, first counter 0x0101 (high byte only differs from 1), second 2 -/
+def exResp1 : Frame := [0,0,0,0, 0x34,0x12,8,9, 0,0, 1,1, 0,0, 0,0,0xff,0, 0,0, 2,0, 0,0]
+/-- first counter right, second counter 0x0300 -/
+def exResp2 : Frame := [0,0,0,0, 1,0,0,2, 0,0, 1,0, 0,0, 0,0,0,0, 0,0, 0,3, 0,0]
+def exEvs : List Ev := [.timeout, .resp exResp1, .timeout, .resp exResp2]
+
+example : Layout exCfg 24 := by decide
+example : RespLen 24 exEvs := by
+  intro d hd
+  simp [exEvs] at hd
+  rcases hd with rfl | rfl <;> rfl
+example : (run exCfg exAsm exEvs).seen = [[[0x1234, 1], [9]], [[1, 0], [2]]] := by decide
+example : (run exCfg exAsm exEvs).errors = 1 + 1 + 1 ∧ (run exCfg exAsm exEvs).missed = 2 := by decide
+example : (run exCfg exAsm exEvs).sent =
+    [exAsm, exAsm,
+     [0,0,0,0, 0x34,0x12,8,9, 0,0, 0,0, 0,0, 0x35,0x12,0xff,27, 0,0, 0,0, 0,0],
+     [0,0,0,0, 0x34,0x12,8,9, 0,0, 0,0, 0,0, 0x35,0x12,0xff,27, 0,0, 0,0, 0,0],
+     [0,0,0,0, 1,0,0,2, 0,0, 0,0, 0,0, 2,0,0x21,7, 0,0, 0,0, 0,0]] := by decide
+
 end Ebv.C30
